@@ -4,7 +4,10 @@ PROP = {'rule': 'rapid-generated histories of 1-5 slo-controller ConfigMap event
          'of three nodes (two with random labels over keys a,b,c, one without labels) is computed with '
          'NodeSLOReconciler.getNodeSLOSpec (with or without the old spec, as Reconcile does). One test function per section '
          '(threshold, qos, cpuburst, system, hostapp): the focused section is absent / empty ({} null ...) / valid / malformed (13 '
-         'variants: syntax errors and wrong JSON types) / textually unchanged, the other four sections are background noise (incl. '
+         'variants: syntax errors and wrong JSON types) / textually unchanged / a "toggle" of the previous version that differs ONLY in '
+         'how nothing is written for list/map-valued keys (key absent vs [] / {} vs null: host applications, blkio blocks, '
+         'schedFeatures, the nodeStrategies/nodeConfigs key; at cluster level and in node entries; the other sections are then '
+         'usually left textually unchanged), the other four sections are background noise (incl. '
          'malformed) and are not judged in that test. A valid section sets a random subset of the field paths of the strategy struct '
          '(schema derived by reflection: pointers, by-value enums, nested objects, map, list of blocks, quantity, int-or-string; '
          'explicit null, empty string, empty object/list, unknown keys, values outside the webhook ranges) at cluster level and in 0-4 '
@@ -16,11 +19,13 @@ PROP = {'rule': 'rapid-generated histories of 1-5 slo-controller ConfigMap event
          'different paths (hostapp: different lists) and the cluster level sets a path one of them sets. distinct = FNV-64 of node '
          'labels + all texts of the focused section.',
  'assumptions': ['"sets the field" is read on the JSON text: a key that is absent, null, "" for a by-value string field, {} for a map or '
-                 '[] for a list does not set anything; unknown keys are ignored',
+                 '[] for a list of blkio blocks does not set anything; unknown keys are ignored. Host applications: an entry with '
+                 '"applications": [] sets the list (no applications), an entry without the key does not (cluster list); null is '
+                 'decoded like an absent key, "no applications" is tolerated for it as well',
                  'a list (blkio blocks, host applications) set at a more specific layer may either replace the less specific list or be '
                  'laid over it element by element (what the JSON overlay does): length and every leaf the top layer sets are binding, '
-                 'other leaves may be absent or inherited from the same index; an explicit []/null applications list in a matching '
-                 'host-application entry and an explicit zero totalNetworkBandwidth may be read as set or as not set',
+                 'other leaves may be absent or inherited from the same index; an explicit zero totalNetworkBandwidth may be read as '
+                 'set or as not set',
                  'the built-in default of the resource-QoS section is the empty strategy (per-class defaults are applied by koordlet); '
                  'the extensions section is not judged (no extension plug-in is registered in this tree)',
                  'nodes carry no network-bandwidth annotation (the documented per-node override of totalNetworkBandwidth is outside '
